@@ -150,7 +150,7 @@ Section Safe.
   Qed.
 
   Lemma bsc_upgrade_safe st hd cid epoch trusting seal :
-    validate_bsc hd epoch = Ok tt -> store_wf st -> osafe store_wf (bsc_upgrade now false st hd cid epoch trusting seal).
+    validate_bsc hd epoch = Ok tt -> store_wf st -> osafe store_wf (bsc_upgrade now false false st hd cid epoch trusting seal).
   Proof.
     intros Hv Hwf. destruct (validate_bsc_facts _ _ Hv) as (He & Hx & _ & _).
     unfold bsc_upgrade. apply N.eqb_neq in He. rewrite He.
@@ -183,7 +183,7 @@ Section Safe.
   Qed.
 
   Lemma upgrade_state_safe st cs k :
-    validate_client cs = Ok tt -> store_wf st -> osafe store_wf (upgrade_state_gen now false st cs k).
+    validate_client cs = Ok tt -> store_wf st -> osafe store_wf (upgrade_state_gen now false false st cs k).
   Proof.
     intros Hv Hwf. destruct cs; cbn in *.
     - exact Hwf.
@@ -202,13 +202,13 @@ Section Safe.
   Qed.
 
   Lemma upgrade_client_safe st cs k :
-    validate_client cs = Ok tt -> store_wf st -> osafe store_wf (upgrade_client now false st cs k).
+    validate_client cs = Ok tt -> store_wf st -> osafe store_wf (upgrade_client now false false st cs k).
   Proof.
     intros Hv Hwf. unfold upgrade_client.
     destruct (c_client st) as [cur|]; [|exact I].
     destruct (negb (ctype_eqb (client_type cur) (client_type cs))); [exact I|].
     pose proof (upgrade_state_safe st cs k Hv Hwf) as H.
-    destruct (upgrade_state_gen now false st cs k) as [st1| |]; cbn in *; [|exact I|contradiction].
+    destruct (upgrade_state_gen now false false st cs k) as [st1| |]; cbn in *; [|exact I|contradiction].
     destruct (ctype_eqb (client_type cs) TTSS); cbn; [apply store_wf_set_client | apply store_wf_set_cons, store_wf_set_client]; exact H.
   Qed.
 
@@ -247,7 +247,7 @@ Section Safe.
   Qed.
 
   Theorem handle_xprop_safe s p :
-    xprop_validate p = Ok tt -> xstate_wf s -> osafe xstate_wf (handle_xprop now s p).
+    xprop_validate p = Ok tt -> xstate_wf s -> osafe xstate_wf (handle_xprop now false s p).
   Proof.
     intros Hv Hwf. destruct p as [t d chain cs k|t d chain cs k|t d chain cs k|t d a chains n]; cbn in Hv.
     - apply client_prop_validate_facts in Hv as (c & -> & Hc). unfold handle_xprop, handle_xprop_gen.
@@ -274,7 +274,7 @@ Section Safe.
   Fixpoint run_gov (s : xstate) (ps : list xprop) : outcome xstate :=
     match ps with
     | [] => Ok s
-    | p :: t => match gov_exec (handle_xprop now) s p with Ok s' => run_gov s' t | Err => Err | Panic => Panic end
+    | p :: t => match gov_exec (handle_xprop now false) s p with Ok s' => run_gov s' t | Err => Err | Panic => Panic end
     end.
 
   Theorem run_gov_safe ps : forall s,
@@ -282,7 +282,7 @@ Section Safe.
   Proof.
     induction ps as [|p t IH]; cbn; intros s Hv Hwf; [eauto|].
     pose proof (handle_xprop_safe s p (Hv p (or_introl eq_refl)) Hwf) as H.
-    unfold gov_exec. destruct (handle_xprop now s p) as [s'| |]; cbn in H; [| |contradiction].
+    unfold gov_exec. destruct (handle_xprop now false s p) as [s'| |]; cbn in H; [| |contradiction].
     - apply IH; [intros q Hq; apply Hv; right; exact Hq | exact H].
     - apply IH; [intros q Hq; apply Hv; right; exact Hq | exact Hwf].
   Qed.
@@ -395,9 +395,101 @@ Qed.
 
 (** * Monitor soundness: the executable monitor accepts what the model produces *)
 Lemma mon_steps_sound_x now s p i :
-  xstate_wf s -> mon_steps i [(oclass (xprop_validate p), oclass (handle_xprop now s p))] = [].
+  xstate_wf s -> mon_steps i [(oclass (xprop_validate p), oclass (handle_xprop now false s p))] = [].
 Proof.
   intro Hwf. cbn. destruct (xprop_validate p) as [[]| |] eqn:Ev; cbn; try reflexivity.
   pose proof (handle_xprop_safe now s p Ev Hwf) as H.
-  destruct (handle_xprop now s p); cbn in *; [reflexivity | reflexivity | contradiction].
+  destruct (handle_xprop now false s p); cbn in *; [reflexivity | reflexivity | contradiction].
 Qed.
+
+(** * The repaired recent-signer key parser: no state invariant is needed *)
+Lemma delete_all_signer_strict_no_panic l : delete_all_signer_strict l <> Panic.
+Proof.
+  induction l as [|s t IH]; cbn; [discriminate|].
+  destruct (split_slash s []) as [|a [|b [|c r]]]; try discriminate.
+  destruct (parse_height b); [|discriminate].
+  destruct (delete_all_signer_strict t); congruence.
+Qed.
+
+Section SafeStrict.
+  Variable now : N.
+  Notation T := (fun _ : cstore => True).
+
+  Lemma bsc_initialize_nopanic st hd cid epoch seal :
+    validate_bsc hd epoch = Ok tt -> osafe T (bsc_initialize false st hd cid epoch seal).
+  Proof.
+    intros Hv. destruct (validate_bsc_facts _ _ Hv) as (He & Hx & _ & _).
+    unfold bsc_initialize. apply N.eqb_neq in He. rewrite He.
+    destruct (negb (h_ht (hd_height hd) mod epoch =? 0)); [exact I|].
+    eapply osafe_bind; [apply bsc_recover_safe|]. intros _ _.
+    eapply osafe_bind; [apply parse_validators_safe; exact Hx|]. intros _ _. exact I.
+  Qed.
+
+  Lemma bsc_upgrade_strict_nopanic st hd cid epoch trusting seal :
+    validate_bsc hd epoch = Ok tt -> osafe T (bsc_upgrade now true false st hd cid epoch trusting seal).
+  Proof.
+    intros Hv. destruct (validate_bsc_facts _ _ Hv) as (He & Hx & _ & _).
+    unfold bsc_upgrade. apply N.eqb_neq in He. rewrite He.
+    destruct (negb (h_ht (hd_height hd) mod epoch =? 0)); [exact I|].
+    eapply (osafe_bind (fun _ => True)).
+    { destruct (c_cons st) as [|[h c] t]; [exact I|]. destruct c; exact I. }
+    intros cons' _.
+    eapply (osafe_bind (fun _ => True)).
+    { pose proof (delete_all_signer_strict_no_panic (c_signers st)) as Hn.
+      destruct (delete_all_signer_strict (c_signers st)); cbn; congruence || exact I. }
+    intros dels _.
+    eapply osafe_bind; [apply bsc_recover_safe|]. intros _ _.
+    eapply osafe_bind; [apply parse_validators_safe; exact Hx|]. intros _ _. exact I.
+  Qed.
+
+  Lemma initialize_nopanic st cs k : validate_client cs = Ok tt -> osafe T (initialize_gen false st cs k).
+  Proof.
+    intros Hv. destruct cs; cbn in *.
+    - destruct k; cbn; auto.
+    - apply bsc_initialize_nopanic; assumption.
+    - apply validate_eth_facts in Hv. unfold eth_initialize, to_eth_header. apply N.ltb_ge in Hv. rewrite Hv. exact I.
+    - exact I.
+  Qed.
+
+  Lemma upgrade_state_strict_nopanic st cs k : validate_client cs = Ok tt -> osafe T (upgrade_state_gen now true false st cs k).
+  Proof.
+    intros Hv. destruct cs; cbn in *.
+    - exact I.
+    - apply bsc_upgrade_strict_nopanic; assumption.
+    - apply validate_eth_facts in Hv. unfold eth_initialize, to_eth_header. apply N.ltb_ge in Hv. rewrite Hv. exact I.
+    - exact I.
+  Qed.
+
+  Lemma osafe_T_ok {A B} (o : outcome A) (f : A -> B) :
+    osafe (fun _ => True) o -> osafe (fun _ => True) (match o with Ok a => Ok (f a) | Err => Err | Panic => Panic end).
+  Proof. destruct o; cbn; auto. Qed.
+
+  Theorem handle_xprop_strict_safe s p : xprop_validate p = Ok tt -> handle_xprop now true s p <> Panic.
+  Proof.
+    intros Hv. apply (osafe_not_panic (fun _ => True)).
+    destruct p as [t d chain cs k|t d chain cs k|t d chain cs k|t d a chains n]; cbn in Hv.
+    - apply client_prop_validate_facts in Hv as (c & -> & Hc). unfold handle_xprop, handle_xprop_gen.
+      destruct (c_client (xget s chain)); [exact I|]. cbn [unpack obind].
+      eapply osafe_bind; [apply unpack_safe|]. intros kk _.
+      eapply osafe_bind; [apply cons_type_ok_safe|]. intros _ _.
+      eapply (osafe_bind (fun _ => True)); [|intros; exact I].
+      unfold create_client. eapply osafe_bind; [apply initialize_nopanic; exact Hc|]. intros; exact I.
+    - apply client_prop_validate_facts in Hv as (c & -> & Hc). unfold handle_xprop, handle_xprop_gen. cbn [unpack obind].
+      eapply osafe_bind; [apply unpack_safe|]. intros kk _.
+      eapply osafe_bind; [apply cons_type_ok_safe|]. intros _ _.
+      eapply (osafe_bind (fun _ => True)); [|intros; exact I].
+      unfold upgrade_client. destruct (c_client (xget s chain)) as [cur|]; [|exact I].
+      destruct (negb (ctype_eqb (client_type cur) (client_type c))); [exact I|].
+      pose proof (upgrade_state_strict_nopanic (xget s chain) c kk Hc) as H.
+      destruct (upgrade_state_gen now true false (xget s chain) c kk); cbn in *; auto.
+    - apply client_prop_validate_facts in Hv as (c & -> & Hc). unfold handle_xprop, handle_xprop_gen.
+      destruct (c_client (xget s chain)); [|exact I]. cbn [unpack obind].
+      eapply osafe_bind; [apply unpack_safe|]. intros kk _.
+      eapply osafe_bind; [apply cons_type_ok_safe|]. intros _ _.
+      eapply (osafe_bind (fun _ => True)); [|intros; exact I].
+      unfold toggle_client. destruct (c_client (xget s chain)) as [cur|]; [|exact I].
+      destruct (ctype_eqb (client_type cur) (client_type c)); [exact I|].
+      cbn [negb andb]. eapply osafe_bind; [apply initialize_nopanic; exact Hc|]. intros; exact I.
+    - cbn. exact I.
+  Qed.
+End SafeStrict.
